@@ -286,6 +286,12 @@ def _br_func(w, f, lang):
     head = f["head"]  # e.g. "function name", "name", "const name = async", "Cls::name"
     params = f["params"]
     name_tc = f.get("name_tc")
+    if f.get("kw_break") and head.startswith("function "):
+        # the keyword on a line of its own, the name on the next one (kw_tc: a trailing comment on the keyword's line)
+        w.code("function")
+        w.nl(f.get("kw_tc"))
+        w.indent()
+        head = head[len("function "):]
     if f.get("hdr_lines") == "aligned" and len(params) > 1:
         # continuation lines aligned with the opening parenthesis
         w.code(head + "(")
